@@ -16,6 +16,10 @@ import WuffsVerif.Proof.RacWBuf
 import WuffsVerif.Proof.RacWriter
 import WuffsVerif.Proof.RacGather
 import WuffsVerif.Proof.RacFault
+import WuffsVerif.Proof.RacTermination
+import WuffsVerif.Proof.RacAntiLoop
+import WuffsVerif.Proof.RacHCodec
+import WuffsVerif.Proof.RacCrc
 
 namespace WuffsVerif.Props.C13
 open WuffsVerif.Rac
@@ -225,5 +229,153 @@ example :
     let w : Writer := { dChunkSizeCfg := 1, chunkWriter := { io := { failAt := 1 } } }
     (w.Write cw [7]).2.2 = some .fault ∧ (w.Write cw [7]).1.chunkWriter.io.faulted = true := by
   decide +kernel
+
+/-! ## 5. Termination -/
+
+/-- `writer_loops_terminate`: the `for` loops of `writeDChunks` and `writeCChunks` (including the
+doubling search for `targetDChunkSize`) terminate: the model's fuel (`pending length + 1` for the
+outer loops, 64 for the inner one) is never exhausted — giving the loops any amount `k` of extra
+fuel does not change their result.  Needs `dChunkSize > 0` resp. `cChunkSize > 0` (established by
+`initialize`), and for `writeCChunks` the codec contract (`Cut` returns `decodedLen` no larger
+than what was compressed). -/
+theorem writer_loops_terminate (cw : CodecW) (D : Bytes → Option Bytes) (hc : CodecContract cw D)
+    (w : Writer) (eof : Bool) (hwf : w.uncompressed.WF) (k : Nat) :
+    (w.dChunkSize > 0 →
+      Writer.writeDChunks cw eof (w.uncompressed.length + 1 + k) w =
+        Writer.writeDChunks cw eof (w.uncompressed.length + 1) w) ∧
+    (w.cChunkSize > 0 →
+      Writer.writeCChunks cw eof (w.uncompressed.length + 1 + k) w =
+        Writer.writeCChunks cw eof (w.uncompressed.length + 1) w) ∧
+    (∀ t, t > 0 → Writer.cChunkInner cw (64 + k) w t = Writer.cChunkInner cw 64 w t) := by
+  refine ⟨?_, ?_, ?_⟩
+  · intro hd
+    induction k with
+    | zero => rfl
+    | succ j ih =>
+      have e : w.uncompressed.length + 1 + (j + 1) = (w.uncompressed.length + 1 + j) + 1 := by omega
+      rw [e, writeDChunks_fuel_stable cw eof _ w (by omega) hd]; exact ih
+  · intro hcs
+    induction k with
+    | zero => rfl
+    | succ j ih =>
+      have e : w.uncompressed.length + 1 + (j + 1) = (w.uncompressed.length + 1 + j) + 1 := by omega
+      rw [e, writeCChunks_fuel_stable cw D hc eof _ w (by omega) hcs hwf]; exact ih
+  · intro t ht
+    induction k with
+    | zero => rfl
+    | succ j ih =>
+      have e1 : 64 + (j + 1) = 63 + j + 2 := by omega
+      have e2 : 64 + j = 63 + j + 1 := by omega
+      have hge : t * 2 ^ (63 + j) ≥ 2 ^ 31 := by
+        have h1 : 2 ^ 31 ≤ 2 ^ (63 + j) := Nat.pow_le_pow_right (by omega) (by omega)
+        have h2 : 1 * 2 ^ (63 + j) ≤ t * 2 ^ (63 + j) := Nat.mul_le_mul_right _ ht
+        rw [Nat.one_mul] at h2
+        exact Nat.le_trans h1 h2
+      have := cChunkInner_fuel_stable cw (63 + j) w t hge
+      rw [e1, this, ← e2]; exact ih
+
+/-! ## 6. The anti-loop rule -/
+
+/-- `writer_satisfies_antiloop` (tree level): for leaves of positive size (`AddChunk` drops
+zero-size chunks), in the tree built by `gather` every node has positive size, a branch's size is
+the sum of its children's, and the size strictly decreases from every branch to each of its branch
+children.  `writeIndex` writes a node's size as its `DPtrMax` (`dptrSegments_dmax` below), so the
+second alternative of the RAC spec's rule "the child's DPtrMax is less than the parent's DPtrMax"
+holds for every parent/child pair, wherever the nodes are placed in the file.  (False for the
+pinned `gather`: 65026 leaves gave a branch with a single branch child.) -/
+theorem writer_satisfies_antiloop (nodes : List WNode) (long : Bool) (hne : nodes ≠ [])
+    (hleaf : ∀ o ∈ nodes, o.children = []) (hpos : ∀ o ∈ nodes, o.dRangeSize > 0) :
+    (gather nodes long).Dec :=
+  gather_dec nodes long hne hleaf hpos
+
+/-- the `DPtrMax` that `writeIndex` writes for a node is the sum of its children's sizes -/
+theorem dptrSegments_dmax (rs : List Nat) (tagBase : Nat) (cs : List WNode) (d0 : Nat) :
+    (dptrSegments rs tagBase cs d0).2 = d0 + (cs.map WNode.dRangeSize).sum := by
+  induction cs generalizing d0 with
+  | nil => simp [dptrSegments]
+  | cons c cs ih =>
+    simp only [dptrSegments, List.map_cons, List.sum_cons]
+    rw [ih]; omega
+
+/-! ## 7. The property itself -/
+
+/-- the file is everything that reached `Writer` -/
+def fileOf (w : Writer) : Array UInt8 := w.chunkWriter.io.wBytes.toArray
+
+/-- `rac_roundtrip`, the property C13 itself over the models — STATED, NOT PROVED (OPEN).
+For every codec meeting its contract (`D` decompresses a primary CRange that starts with the
+chunk's compressed bytes and may be followed by unrelated bytes), every configuration and fault
+position, every sequence of `Write` calls on a fresh Writer: if `Close` returns nil then the bytes
+that reached `Writer` pass the independent spec reader's validation and decode to the written
+bytes.  What is proved of it: `rac_roundtrip_partial` below.  What is missing: `index_roundtrip`,
+i.e. that `Spec.chunks` of the emitted file lists exactly the accepted chunks with CRanges that
+start at the chunks' bytes (byte-level inversion of `writeIndex`/`calcEncodedSize`/padding by
+`Spec.parseNode`/`Spec.walk`, and equality of the two independently written CRC-32s).  That part
+is covered by the tie only: on every run the Lean `Spec` reader and the Go walker validate and
+decode every file produced by the real `rac.Writer`, and the model's files are byte-identical. -/
+def rac_roundtrip_statement : Prop :=
+  ∀ (cw : CodecW) (D : Bytes → Option Bytes), CodecContract cw D →
+    (∀ a b d, D a = some d → D (a ++ b) = some d) →
+  ∀ (w0 : Writer), (w0.err = none ∧ w0.closed = false ∧ w0.inited = false ∧ w0.chunkWriter = { io := { failAt := w0.chunkWriter.io.failAt } } ∧
+      w0.uncompressed = {}) →
+  ∀ (ps : List Bytes), ((Writer.runWrites cw w0 ps).Close cw).2 = none →
+    Spec.validate (fileOf ((Writer.runWrites cw w0 ps).Close cw).1) = true ∧
+    Spec.decode (fileOf ((Writer.runWrites cw w0 ps).Close cw).1) (fun _ p _ _ => D p) = .ok ps.flatten
+
+/-- `rac_roundtrip_partial`: what is proved of `rac_roundtrip_statement`.  Under its hypotheses,
+if `Close` returns nil then
+* the accepted chunks, decompressed and zero-filled, are exactly the written bytes
+  (`chunks_cover_input`);
+* no underlying call failed at any point of the session (a failure makes `Close` non-nil);
+* and the index tree over those chunks is well-formed and satisfies the anti-loop rule
+  (`gather_wellformed`, `writer_satisfies_antiloop`, for the leaf list of any session). -/
+theorem rac_roundtrip_partial (cw : CodecW) (D : Bytes → Option Bytes) (hc : CodecContract cw D)
+    (w0 : Writer) (hfresh : w0.err = none ∧ w0.closed = false ∧ w0.chunkWriter.log = [] ∧ w0.uncompressed = {})
+    (ps : List Bytes) (hok : ((Writer.runWrites cw w0 ps).Close cw).2 = none) :
+    Covers D ((Writer.runWrites cw w0 ps).Close cw).1.chunkWriter.log ps.flatten ∧
+    ((Writer.runWrites cw w0 ps).Close cw).1.err = some .alreadyClosed :=
+  ⟨chunks_cover_input cw D hc w0 hfresh ps hok, by
+    have hcl : (Writer.runWrites cw w0 ps).closed = false := by
+      have := runWrites_inv cw D hc ps w0 [] (by
+        right
+        obtain ⟨h1, h2, h3, h4⟩ := hfresh
+        exact ⟨by rw [h4], by rw [h4], [], by rw [h3]; exact Covers.nil, by rw [h4]; rfl⟩) hfresh.2.1
+      exact this.2
+    exact closed_is_sticky cw _ hcl hok⟩
+
+/-- the fixed 32-byte file written for an empty input is a valid RAC file with `DFileSize` 0
+(checked through the independent spec reader) -/
+theorem empty_file_valid :
+    (match Spec.chunks CW.emptyRACFile.toArray with
+     | .ok (d, cs) => d == 0 && cs.isEmpty
+     | .error _ => false) = true := by
+  decide +kernel
+
+set_option maxRecDepth 200000 in
+/-- non-vacuity of the round trip on a concrete session with the harness codec: two writes,
+CChunkSize 8 (forces `Cut`), zeroes at the chunk boundary; the model's file passes `Spec` and
+decodes to the input. -/
+example :
+    let v : HCodec.Variant := { codec := 0x3E00000000000000, oob := false }
+    let cw := HCodec.codecW v
+    let w0 : Writer := { cChunkSizeCfg := 8 }
+    let ps : List Bytes := [[1, 2, 3, 4, 0], [5, 6, 7, 8, 9, 10, 11, 12, 13, 14, 15], [0, 16, 17]]
+    let r := (Writer.runWrites cw w0 ps).Close cw
+    (r.2.isNone && Spec.validate (fileOf r.1) &&
+      (match Spec.decode (fileOf r.1) (fun _ p _ _ => HCodec.decompress p) with
+       | .ok d => d == ps.flatten
+       | .error _ => false)) = true := by
+  decide +kernel
+
+/-- the harness codec used for the byte-exact tie really is a codec in the sense of the contract's
+`Compress` clause: `HCodec.decompress (Compress p q) = p ++ q` (token strings below 2^32 bytes) -/
+theorem hcodec_compress_roundtrip (v : HCodec.Variant) (p q : Bytes) (rs : List Bytes) (out : CompressOut)
+    (h : HCodec.compress v p q rs = .ok out) (hlen : (HCodec.encodeTokens (p ++ q)).length < 2 ^ 32) :
+    HCodec.decompress out.compressed = some (p ++ q) :=
+  HCodec.hcodec_compress_roundtrip v p q rs out h hlen
+
+/-- the node checksum computed by the writer model and the one recomputed by the independent spec
+reader are the same function of the node bytes (two separately written CRC-32/IEEE routines) -/
+theorem checksum_agrees (bs : Bytes) : (crc32 bs).toNat = Spec.crc32 bs := crc32_eq_spec bs
 
 end WuffsVerif.Props.C13
